@@ -39,6 +39,16 @@ func verifDecoder(bs *schema.BodySchema, files map[string]*hcl.File) *PathDecode
 	return pd
 }
 
+func verifDecoderFromCtx(pc *PathContext) *PathDecoder {
+	d := NewDecoder(&verifPathReader{paths: map[string]*PathContext{"dir": pc}})
+	d.SetContext(NewDecoderContext())
+	pd, err := d.Path(lang.Path{Path: "dir"})
+	if err != nil {
+		panic(err)
+	}
+	return pd
+}
+
 func verifSchemaS1() *schema.BodySchema {
 	return &schema.BodySchema{
 		Attributes: map[string]*schema.AttributeSchema{
